@@ -428,8 +428,8 @@ def run(tier, seed):
             raise lib.MachineryError(f"the TapeParams model violates its own invariant {g.invariant_violated}:\n" + g.out[-2000:])
         lib.require_ok(g, "TapeParamsGen")
         hh = [("exh%d" % depth, j["hist"]) for j in g.json_lines]
-        if len(hh) > 50000:
-            hh = rng.sample(hh, 50000)
+        if len(hh) > 40000:
+            hh = rng.sample(hh, 40000)
         hists += hh
         runs.append(g)
     n_exh_states = sum(x.distinct for x in runs)
@@ -463,7 +463,7 @@ def run(tier, seed):
     neg_ok = 1
 
     # ---------------- (C) code -> spec: seeded random deeper histories on the real API
-    n_walk, d_walk = (1500, 6) if tier == "quick" else (30000, 8)
+    n_walk, d_walk = (1500, 6) if tier == "quick" else (8000, 8)
     for wi in range(n_walk):
         h, steps = random_walk(rng, d_walk, qp.tape.QuantumScript if wi % 3 else qp.tape.QuantumTape, stats)
         hists.append(("walk", h))
@@ -475,7 +475,7 @@ def run(tier, seed):
 
     phases["random_histories"] = round(time.time() - T0, 1)
     # ---------------- trace validation of what the implementation reported (replayed and random histories)
-    cap = 2500 if tier == "quick" else 30000
+    cap = 2500 if tier == "quick" else 12000
     idx = [i for i in range(len(traces)) if hists[i][0] == "walk"]
     rest = [i for i in range(len(traces)) if hists[i][0] != "walk"]
     idx = sorted(idx + (rest if len(rest) <= cap else rng.sample(rest, cap)))
@@ -485,14 +485,20 @@ def run(tier, seed):
         for c, what in corrupt(traces[i], rng):
             negs.append((len(batch), what))
             batch.append(c)
-    wd4 = lib.workdir("C40", "trace")
-    (wd4 / "traces.json").write_text(json.dumps(batch))
-    r = lib.run_tlc("Trace_TapeParams", lib.cfg(init="TInit", next_="TNext", constants={"NTRACES": len(batch), "Bases": "{}", "MaxSteps": 0, "MaxTapes": 0}),
-                    wd4, env={"TRACE_FILE": str(wd4 / "traces.json")}, timeout=3000)
-    lib.require_ok(r, "Trace_TapeParams")
-    runs.append(r)
+    verd = {}
+    CH = 5000
+    for b0 in range(0, len(batch), CH):
+        part = batch[b0:b0 + CH]
+        wd4 = lib.workdir("C40", f"trace{b0}")
+        (wd4 / "traces.json").write_text(json.dumps(part))
+        r = lib.run_tlc("Trace_TapeParams", lib.cfg(init="TInit", next_="TNext", constants={"NTRACES": len(part), "Bases": "{}", "MaxSteps": 0, "MaxTapes": 0}),
+                        wd4, env={"TRACE_FILE": str(wd4 / "traces.json")}, timeout=3000)
+        lib.require_ok(r, "Trace_TapeParams")
+        runs.append(r)
+        for t in r.tuples:
+            if t[0] == "V":
+                verd[b0 + t[1] - 1] = t[2:]
     phases["tlc_trace_validation"] = round(time.time() - T0, 1)
-    verd = {t[1] - 1: t[2:] for t in r.tuples if t[0] == "V"}
     if len(verd) != len(batch):
         raise lib.MachineryError(f"verdicts not total: {len(verd)} of {len(batch)}")
     kinds = {}
